@@ -650,6 +650,9 @@ func (s *Svc) Rev(ctx context.Context, tok string, k int, which int) (string, er
 		case 9: // a large answer from the client-side handler
 			last, err = rc.RBig(ctx, t, 24<<20)
 			last = fmt.Sprintf("rbig:%d:%s", len(last), Trunc40(last))
+		case 10: // an answer of a few hundred KiB from the client-side handler
+			last, err = rc.RBig(ctx, t, 300<<10)
+			last = fmt.Sprintf("rbig:%d:%s", len(last), Trunc40(last))
 		case 7: // retry-tagged, detached context
 			last, err = rc.IdentR(context.Background(), t)
 		case 8:
